@@ -1,7 +1,7 @@
 HOOK_COMMITS = []
 ENGINES = [
     {"name": "E1", "path": "mc/engine/core.py", "kind_free_text": "bounded exhaustive input enumeration of the real functions against set-of-bases / truth-table reference models, sharded over processes",
-     "serves_properties": ["C01", "C02", "C03", "C04", "C08"]},
+     "serves_properties": ["C01", "C02", "C03", "C04", "C05", "C07", "C08"]},
 ]
 NOT_APPLICABLE = {}
 CHECKS = {
@@ -35,4 +35,16 @@ CHECKS = {
                      "families (chain, condition menu, mixed cutoffs, SUPERIORS, EXTENDERS) run through the real detect_protoclusters_and_signatures; "
                      "anchors, groups (graph components at distance < cutoff), core span, extent and superior removal are judged in set-of-bases terms.",
                 note="Small-scope (L in {13,16}, c in {2,3,5}, n in {0,1,4}); ring cores exact only below L/2; partial superior overlap not judged; extender admission modelled as closure at distance <= cutoff."),
+    "C05": dict(engine="E1", level="exploration", ref="DESIGN.md 5/C05",
+                technique="bounded exhaustive enumeration of protocluster multisets x all supply orders through the real candidate formation vs graph-component reference",
+                text="Every multiset of <=3-4 real Protocluster objects from a slotted menu (nested, touching, identical, origin-spanning cores and extents) "
+                     "is supplied to a real Record in every order; universal invariants (membership, span, no duplicates, order independence) and the "
+                     "documented kinds (reference = connected components over set-of-bases overlap plus the documented de-duplication) are compared.",
+                note="6-7 slots, <=4 protoclusters; spans via the real connect_locations (C04); kinds compared only where the reference is unambiguous."),
+    "C07": dict(engine="E1", level="exploration", ref="DESIGN.md 5/C07",
+                technique="metamorphic exhaustive enumeration: every origin rotation and every rule permutation/sub-selection, differential against the base run",
+                text="Every gap-word layout x hit table x ruleset family is run through detection -> candidates -> regions at every one of the L rotations "
+                     "of the origin (records rebuilt from scratch) and for every permutation / sub-selection of the rules; coordinate-free descriptions "
+                     "must be identical (rotation: when every base region spans < L/2).",
+                note="L in {24,25}, <=3 genes, gaps {0,1,2,3,4,6}; descriptions computed by set-of-bases containment; no expected values needed."),
 }
